@@ -669,12 +669,20 @@ repsLoop:
 		}
 
 		var counter int
+		counted := []interop.PublicKey{}
 		for _, sig := range sigs[i] {
 			pubsI := Nodes(cid, uint8(i))
+		pubsLoop:
 			for iterator.Next(pubsI) {
 				pub := iterator.Value(pubsI).(interop.PublicKey)
+				for _, c := range counted {
+					if pub.Equals(c) { // every member is counted once
+						continue pubsLoop
+					}
+				}
 				if crypto.VerifyWithECDsa(msg, pub, sig, crypto.Secp256r1Sha256) {
 					counter++
+					counted = append(counted, pub)
 					break
 				}
 			}
